@@ -639,6 +639,83 @@ def wrap_points(R, ctx):
     R.require(rid, "anchor:wrapping-generators", len(wrapping) >= 2, "", "generators with a column span: %s" % [g.split("::")[-1] for g in wrapping])
 
 
+def reparse(R, ctx):
+    """generator o grammar: what the dense/readable generators write for every operator pair is read back as the same nesting."""
+    import itertools
+    from .. import peval, luaref
+    from ..peval import Enum, Struct, make
+    rid = "C02.reparse"
+    lib = ctx.lib
+    R.rule(rid, "the dense and the readable generator, evaluated through LuaGenerator::write_expression (their own parenthesisation and spacing "
+                "decisions included) on EVERY tree `(a P b) Q c`, `a P (b Q c)` for the 16x16 binary operator pairs, on `u (a P b)`, "
+                "`(u a) P b`, `a P (u b)` for the 3 unary x 16 binary operators and on all unary pairs `u (v a)`, at column spans 80 and 4: the "
+                "text written is read by an independent reader of Lua's expression grammar (manual 2.5.6, `..` and `^` right associative, "
+                "`--` opens a comment) as the SAME operator nesting. Wrong or missing parentheses, `a--b`, `not not`-style fusions and "
+                "breaks that change meaning all show up as a different tree or a read error")
+    N = "nodes::expressions::"
+    BE, UE, UOP, ID = N + "binary::BinaryExpression", N + "unary::UnaryExpression", N + "unary::UnaryOperator", "nodes::identifier::Identifier"
+    bops = [v["name"] for v in lib.adts[BINOP]["variants"]]
+    uops = [v["name"] for v in lib.adts[UOP]["variants"]]
+    if not R.require(rid, "anchor:operators", set(bops) == set(luaref.BIN_SYMBOL) and set(uops) == set(luaref.UN_SYMBOL), "",
+                     "reference symbol tables cover the operator enums: %s" % sorted((set(bops) ^ set(luaref.BIN_SYMBOL)) | (set(uops) ^ set(luaref.UN_SYMBOL)))):
+        return
+
+    def ident(n):
+        return Enum(EXPR, "Identifier", {"0": make(lib, ID, {"name": n})}), ("id", n)
+
+    def binary(op, l, r):
+        return Enum(EXPR, "Binary", {"0": make(lib, BE, {"operator": Enum(BINOP, op), "left": l[0], "right": r[0]})}), ("bin", luaref.BIN_SYMBOL[op], l[1], r[1])
+
+    def unary(op, e):
+        return Enum(EXPR, "Unary", {"0": make(lib, UE, {"operator": Enum(UOP, op), "expression": e[0]})}), ("un", luaref.UN_SYMBOL[op], e[1])
+    a, b, c = ident("a"), ident("b"), ident("c")
+    trees = []
+    for p_, q_ in itertools.product(bops, repeat=2):
+        trees.append(("(a %s b) %s c" % (luaref.BIN_SYMBOL[p_], luaref.BIN_SYMBOL[q_]), binary(q_, binary(p_, a, b), c)))
+        trees.append(("a %s (b %s c)" % (luaref.BIN_SYMBOL[p_], luaref.BIN_SYMBOL[q_]), binary(p_, a, binary(q_, b, c))))
+    for u_, p_ in itertools.product(uops, bops):
+        us, ps = luaref.UN_SYMBOL[u_], luaref.BIN_SYMBOL[p_]
+        trees.append(("%s (a %s b)" % (us, ps), unary(u_, binary(p_, a, b))))
+        trees.append(("(%s a) %s b" % (us, ps), binary(p_, unary(u_, a), b)))
+        trees.append(("a %s (%s b)" % (ps, us), binary(p_, a, unary(u_, b))))
+    for u_, v_ in itertools.product(uops, repeat=2):
+        trees.append(("%s (%s a)" % (luaref.UN_SYMBOL[u_], luaref.UN_SYMBOL[v_]), unary(u_, unary(v_, a))))
+    gens = [g for g in sorted(lib.adts) if g.startswith("generator::") and lib.fn("<%s as generator::LuaGenerator>::write_binary_expression" % g) is not None]
+    checked = 0
+    for G in gens:
+        new = lib.fn(G + "::new")
+        if new is None or len(new["thir"].get("params", [])) != 1 or lib.ty_str(new["thir"]["params"][0]["t"]) != "usize":
+            continue
+        short = G.split("::")[-1]
+        bad, unk, n = [], [], 0
+        for span in (80, 4):
+            for label, (node, want) in trees:
+                pe = peval.PEval(lib, ctx.an)
+                try:
+                    import copy
+                    gen = pe.call_fn(new, [span])
+                    pe.call_method("generator::LuaGenerator", "write_expression", [gen, copy.deepcopy(node)])
+                except peval.OutOfFuel:
+                    unk.append((label, "no termination"))
+                    continue
+                outs = [v for v in (gen.fields.values() if isinstance(gen, Struct) else []) if isinstance(v, str)]
+                n += 1
+                if pe.unknown_reasons or len(outs) != 1:
+                    unk.append((label, pe.unknown_reasons[:1]))
+                    continue
+                try:
+                    got = luaref.parse(outs[0])
+                except luaref.ReadError as ex:
+                    bad.append("`%s` is written as %r (span %d): %s" % (label, outs[0], span, ex))
+                    continue
+                if got != want:
+                    bad.append("`%s` is written as %r (span %d), which Lua reads as a different nesting" % (label, outs[0], span))
+        checked += n
+        R.ob(rid, "%s|established" % short, not unk, ctx.adt_where(G), "all %d trees evaluate" % n if not unk else "not established: %s %s" % unk[0])
+        R.ob(rid, "%s|same-tree" % short, not bad, ctx.adt_where(G), "all %d written trees are read back with the same nesting" % n if not bad else "%s (%d trees differ)" % (bad[0], len(bad)))
+    R.require(rid, "floor", checked >= 2000, "", "%d (generator, span, tree) cells" % checked)
+
+
 def run(R, ctx):
     R.explanation = (
         "Decision tables extracted statically from the precedence/associativity/parenthesis functions and from should_break_with_space "
@@ -655,3 +732,4 @@ def run(R, ctx):
     fuse(R, ctx)
     raw(R, ctx)
     wrap_points(R, ctx)
+    reparse(R, ctx)
